@@ -29,7 +29,7 @@ import (
 var rec = vev.For("C16")
 
 func TestMain(m *testing.M) {
-	rec.SetRule("per primitive an encode->decode identity over its domain and a rejection set: entity tags (any byte string; codec, HTTP header through CalDAV server+client, XML through PROPFIND+client), status lines (every code 100-999 x generated phrases), HTTP dates and CalDAV UTC date-times (instants in years 1-9999 in arbitrary fixed zones; the latter end-to-end through QueryCalendar capture and REPORT->backend), Depth and Overwrite (complete), hrefs (absolute paths with non-empty first segment, any bytes); rejection: enumerated near-misses plus random texts that a harness-side recogniser places outside the grammar. non-trivial = identity: the value needs escaping or a zone conversion; rejection: every text; distinct by (primitive, value)")
+	rec.SetRule("per primitive an encode->decode identity over its domain and a rejection set: entity tags (any byte string; codec, HTTP header through CalDAV server+client, XML through PROPFIND+client), status lines (every code 100-999 x generated phrases), HTTP dates and CalDAV UTC date-times (instants in years 1-9999 in arbitrary fixed zones and in real zones with DST rules around their offset changes (zone database embedded in the test binary); the latter end-to-end through QueryCalendar capture and REPORT->backend), Depth and Overwrite (complete), hrefs (absolute paths with non-empty first segment, any bytes); rejection: enumerated near-misses plus random texts that a harness-side recogniser places outside the grammar. non-trivial = identity: the value needs escaping or a zone conversion; rejection: every text; distinct by (primitive, value)")
 	rec.Assume("a status text with fewer than three fields is not in the rejection set when it is empty (absent status); 'HTTP/1.1 200' without reason phrase is not asserted either way", "leniency of net/url and net/http parsers themselves (e.g. blanks inside a path) is not counted against the library")
 	vev.Main(m)
 }
@@ -41,6 +41,7 @@ type Case struct {
 	N    int64  `json:"n,omitempty"`  // code / unix seconds
 	Z    int    `json:"z,omitempty"`  // zone offset seconds
 	NS   int    `json:"ns,omitempty"` // sub-second part
+	TZ   string `json:"tz,omitempty"` // a real zone with DST rules (embedded zone database); overrides Z
 }
 
 func out(prim, kind, f string, a ...any) vev.Outcome {
@@ -48,7 +49,24 @@ func out(prim, kind, f string, a ...any) vev.Outcome {
 }
 
 func instant(c Case) time.Time {
+	if c.TZ != "" {
+		return time.Unix(c.N, int64(c.NS)).In(vev.Zone(c.TZ))
+	}
 	return time.Unix(c.N, int64(c.NS)).In(time.FixedZone("", c.Z))
+}
+
+// genZoned: an instant in a real zone, mostly within two hours of one of its offset changes (both occurrences of a
+// repeated wall-clock hour, both sides of a skipped one)
+func genZoned(rt *rapid.T) (n int64, tz string, ns int) {
+	tz = rapid.SampledFrom(vev.Zones).Draw(rt, "tz")
+	tr := vev.Transitions(tz)
+	if len(tr) == 0 || rapid.IntRange(0, 3).Draw(rt, "anywhere") == 0 {
+		n = rapid.Int64Range(0, 4102444800).Draw(rt, "unix-zoned")
+	} else {
+		n = tr[rapid.IntRange(0, len(tr)-1).Draw(rt, "transition")] + rapid.Int64Range(-7300, 7300).Draw(rt, "delta")
+	}
+	ns = rapid.SampledFrom([]int{0, 0, 1, 999999999}).Draw(rt, "ns")
+	return
 }
 
 func needsEscape(s string) bool {
@@ -456,7 +474,25 @@ func TestEnumerated(t *testing.T) {
 			run(t, nil, Case{Prim: "status", Mode: "identity", N: int64(code), S: vev.B(p)}, p != "OK")
 		}
 	}
-	rec.ExhaustiveSub("Depth {0,1,infinity}, Overwrite {T,F}, status codes 100-999 x 10 phrases, and the enumerated near-miss rejection sets of every primitive")
+	// every offset change 2015-2026 of eight real zones x 11 distances: both occurrences of a repeated wall-clock
+	// hour and both sides of a skipped one must keep their instant (after C16-s13)
+	idx := 0
+	for _, tz := range vev.Zones {
+		for _, tr := range vev.Transitions(tz) {
+			if y := time.Unix(tr, 0).UTC().Year(); y < 2015 || y > 2026 {
+				continue
+			}
+			for _, d := range []int64{-7200, -3601, -3600, -1800, -1, 0, 1, 1799, 1800, 3599, 3600} {
+				idx++
+				if !vev.MyShare(idx) {
+					continue
+				}
+				run(t, nil, Case{Prim: "httpdate", Mode: "identity", N: tr + d, TZ: tz}, true)
+				run(t, nil, Case{Prim: "caldate-client", Mode: "identity", N: tr + d, TZ: tz}, true)
+			}
+		}
+	}
+	rec.ExhaustiveSub("Depth {0,1,infinity}, Overwrite {T,F}, status codes 100-999 x 10 phrases, the enumerated near-miss rejection sets of every primitive, and HTTP dates / CalDAV date-times at 11 distances around every offset change 2015-2026 of 8 real zones")
 }
 
 func genBytes() *rapid.Generator[string] {
@@ -465,6 +501,13 @@ func genBytes() *rapid.Generator[string] {
 		rapid.StringMatching(`[a-f0-9]{1,24}`),
 		rapid.StringMatching(`[a-z"\\ %#?&<>é\x00-\x1f\x7f-\xff]{0,10}`),
 		rapid.String(),
+		// long values (after C16-s14: a length guard on one of the routes): 1-9 KiB plain, or 0.3-3 KiB of bytes that
+		// each need an escape
+		rapid.Custom(func(t *rapid.T) string {
+			unit := rapid.SampledFrom([]string{"a", "0123456789abcdef", "\x01", "\"", "é", "\xff"}).Draw(t, "unit")
+			n := rapid.SampledFrom([]int{1000, 2047, 4093, 4094, 4095, 4096, 4097, 5000, 9000}).Draw(t, "len") / len(unit)
+			return strings.Repeat(unit, n+1)
+		}),
 	)
 }
 
@@ -517,9 +560,19 @@ func TestRandom(t *testing.T) {
 			}
 			run(t, rt, Case{Prim: "status", Mode: "reject", S: vev.B(s)}, true)
 		case 5:
+			if rapid.IntRange(0, 2).Draw(rt, "zoned") == 0 {
+				n, tz, ns := genZoned(rt)
+				run(t, rt, Case{Prim: "httpdate", Mode: "identity", N: n, TZ: tz, NS: ns}, true)
+				return
+			}
 			n, z, ns := genInstant(rt)
 			run(t, rt, Case{Prim: "httpdate", Mode: "identity", N: n, Z: z, NS: ns}, z != 0 || ns != 0)
 		case 6:
+			if rapid.IntRange(0, 2).Draw(rt, "zoned") == 0 {
+				n, tz, ns := genZoned(rt)
+				run(t, rt, Case{Prim: "caldate-client", Mode: "identity", N: n, TZ: tz, NS: ns}, true)
+				return
+			}
 			n, z, ns := genInstant(rt)
 			run(t, rt, Case{Prim: "caldate-client", Mode: "identity", N: n, Z: z, NS: ns}, z != 0 || ns != 0)
 		case 7:
